@@ -16,6 +16,21 @@ def run_conc_mc(chk, cfg, expect_violation=False, workers=8):
     log(f"[mc] {cfg}: {res['distinct']} distinct states, {res['generated']} transitions{' (refuted, as expected)' if expect_violation else ''}")
     return res
 
+def alt_batch(batch, labels, values):
+    """a different batch for the publish that follows a failed one: other values for the same labels plus another label"""
+    out = []
+    used = set()
+    for l, v in batch:
+        if l in used:
+            continue
+        used.add(l)
+        out.append([l, [x for x in values if x != v][0]])
+    for l in labels:
+        if l not in used:
+            out.append([l, values[0]])
+            break
+    return out
+
 def c10():
     chk = Check("C10", "model_checking")
     run_conc_mc(chk, "MCConcurrent_fault1.cfg")
@@ -46,7 +61,7 @@ def c10():
         cell = cells[i % len(cells)]
         bs.append({"id": i + 1, "cfg": ["wa", "exp"][i % 2], "conc": i % 3, "cell": cell, "labels": labels, "values": values,
                    "kinds": ["epoch_hash", "lookup", "audit"], "sweep": "end",
-                   "steps": steps[:-1] + [dict(steps[-1], op="publish_fault_sweep")]})
+                   "steps": steps[:-1] + [dict(steps[-1], op="publish_fault_sweep", alt=alt_batch(steps[-1]["batch"], labels, values))]})
     traces = props_dir.run_dir_harness(chk, bs)
     results = validate_traces("TraceDirectory", "TraceDirectory.cfg", traces, chk.wd)
     chk.handle_validation(results)
@@ -229,6 +244,21 @@ def c13():
                     procs.append({"pid": 2, "kind": "publish", "batch": [["b", "y"]]})
                     sched += [2] * 80
                 add(prefix, procs, sched + [3] * 80, ["none", "default"][(i + ri) % 2])
+    # wide scenario: both publishes rewrite every upper node of the tree, so a request overtaken by both meets
+    # records whose two versions are both newer than its epoch; local readers and a remote cached instance
+    wide_labels = ["a", "b", "c", "d", "f", "g", "h", "i"]
+    wprefix = [[[l, "x"] for l in wide_labels]]
+    for ri, rd0 in enumerate(readers[:5]):
+        for remote in (False, True):
+            for i in (range(0, 12) if chk.tier == "quick" else range(0, 40)):
+                rd = dict(rd0, pid=3, remote=remote)
+                if rd["kind"] == "audit":
+                    rd = dict(rd, s=0, e=1)
+                procs = [{"pid": 1, "kind": "publish", "batch": [[l, "y"] for l in wide_labels]},
+                         {"pid": 2, "kind": "publish", "batch": [[l, "x"] for l in wide_labels]}, rd]
+                bs.append({"id": len(bs) + 1, "cfg": ["wa", "exp"][len(bs) % 2], "conc": len(bs) % 3, "cache": "none" if not remote else ["none", "default"][i % 2],
+                           "labels": wide_labels, "values": ["x", "y"], "kinds": ["epoch_hash"], "prefix": wprefix, "procs": procs,
+                           "schedule": [3] * i + [1] * 200 + [2] * 200 + [3] * 200})
     ctraces = run_conc_harness(chk, bs)
     results = validate_traces("TraceDirectory", "TraceDirectory.cfg", ltraces + ctraces, chk.wd)
     chk.handle_validation(results)
